@@ -99,6 +99,15 @@ CHECKS = {
         "unavailable codes), and every report must produce a message.",
         "Sampled inputs; rounding direction free; ellipse orientation not judged; report key 'time' always present; trusts asn1tools UPER for decoding.",
     ),
+    "C10": (
+        "model-based trajectory testing on virtual time: hypothesis-generated report sequences and service life cycles against independent CAM/VAM rule engines",
+        "Trajectories from a segment grammar (accelerate, turn across 0/360, stop-and-go, jitter, gaps, dropped fields) at 1..50 Hz across "
+        "generationDeltaTime wraps drive the real CA service (virtual timers, start/stop/restart) and VRU service; every handed-over message is "
+        "time-stamped by the virtual clock, decoded, and checked by rule engines: gap bounds, required CAM at the first eligible check after a "
+        "threshold crossing, LF container exactly when due, silence outside start..stop, content = latest report, VAM first-report / minimum / "
+        "maximum gap / LF rules.",
+        "Sampled trajectories (quick: <= 60 s, thorough: up to hours of virtual time); +-1.5 ms slack; extra CAMs allowed; VAM < 100 ms gaps are a recorded known finding.",
+    ),
 }
 
 NOT_APPLICABLE = {
